@@ -3,15 +3,17 @@
 EXTENDS DiffTreeTrace
 
 \* ordering around '/', file <-> directory <-> gitlink swaps
-QOrder  == [sib |-> {"a.b", "a0"}, sub |-> {"a/b"}, vals |-> {"f1", "g1"}]
+QOrder  == [sib |-> {"a.b", "a0"}, sub |-> {"a/b"}, vals |-> {"f1", "g1"}, ren |-> FALSE]
 \* kinds and mode-only changes, the empty blob
-QKinds  == [sib |-> {"ab"}, sub |-> {"a/b"}, vals |-> {"f1", "fe", "x1", "l1"}]
+QKinds  == [sib |-> {"ab"}, sub |-> {"a/b"}, vals |-> {"f1", "fe", "x1", "l1"}, ren |-> FALSE]
 \* identical content at several paths, content changes (rename pairing)
-QRename == [sib |-> {"a.b", "a0"}, sub |-> {"a/b"}, vals |-> {"f1", "f2"}]
-MCQuick == {QOrder, QKinds, QRename}
+QRename == [sib |-> {"a.b", "a0"}, sub |-> {"a/b"}, vals |-> {"f1", "f2"}, ren |-> TRUE]
+\* one content at up to four paths at a time (a.b, a0 and a | a/b, a/c): several deletions and several insertions of the same blob
+QDup    == [sib |-> {"a.b", "a0"}, sub |-> {"a/b", "a/c"}, vals |-> {"f1"}, ren |-> TRUE]
+MCQuick == {QOrder, QKinds, QRename, QDup}
 
-TOrder  == [sib |-> {"a-b", "a.b", "a0"}, sub |-> {"a/b"}, vals |-> {"f1", "g1"}]
-TMix    == [sib |-> {"a.b", "a0"}, sub |-> {"a/b"}, vals |-> {"f1", "f2", "g1"}]
-TKinds  == [sib |-> {"ab"}, sub |-> {"a/b", "a/c"}, vals |-> {"f1", "fe", "x1", "l1", "g1"}]
-MCThorough == {TOrder, TMix, TKinds}
+TOrder  == [sib |-> {"a-b", "a.b", "a0"}, sub |-> {"a/b"}, vals |-> {"f1", "g1"}, ren |-> FALSE]
+TMix    == [sib |-> {"a.b", "a0"}, sub |-> {"a/b"}, vals |-> {"f1", "f2", "g1"}, ren |-> TRUE]
+TKinds  == [sib |-> {"ab"}, sub |-> {"a/b", "a/c"}, vals |-> {"f1", "fe", "x1", "l1", "g1"}, ren |-> FALSE]
+MCThorough == {TOrder, TMix, TKinds, QDup}
 =============================================================================
